@@ -158,6 +158,9 @@ class Expander:
         if n.tag in ('symbol', 'defs', 'clipPath'):
             return []
         m = N(n.tag, n.attrs, [], n.text)
+        if n.tag == 'a':                       # `a` is a `g`
+            m.tag = 'g'
+            m.attrs.pop('xlink:href', None)
         for k in n.kids:
             m.kids += self.expand(k, vp)
         return [m]
@@ -189,12 +192,16 @@ class Expander:
             inner_vp = (vb[2], vb[3])
         else:
             inner_vp = (w, h) if (w > 0 and h > 0) else vp
-        inner = N('g', dict(pres_of(s), transform=mat_text(new_ts)))
+        # a group with the element's own style (and transform), the viewport clip group, the viewport transform
+        inner = N('g', dict(transform=mat_text(new_ts)))
         for k in s.kids:
             inner.kids += self.expand(k, inner_vp)
+        own = pres_of(s)
+        if 'transform' in s.attrs:
+            own['transform'] = s.attrs['transform']
         if clip:
-            return [N('g', {'clip-path': 'url(#%s)' % self.new_clip(x, y, w, h)}, [inner])]
-        return [inner]
+            return [N('g', own, [N('g', {'clip-path': 'url(#%s)' % self.new_clip(x, y, w, h)}, [inner])])]
+        return [N('g', own, [inner])]
 
     def expand_use(self, u, vp):
         tgt = self.ids.get(u.attrs.get('xlink:href', '#')[1:])
@@ -396,6 +403,35 @@ def rand_leaf(rng, k):
     return N('polygon', dict(p, points='5,5 40,10 20,45'))
 
 
+def rand_link(rng):
+    """an `a` element: empty, with shapes, nested a > g > shape / a > a, or containing a text element"""
+    a = N('a', dict(rand_pres(rng), **{'xlink:href': 'http://example.org/'}))
+    r = rng.below(5)
+    if r == 0:
+        pass
+    elif r == 1:
+        a.kids = [rand_leaf(rng, 0) for _ in range(1 + rng.below(3))]
+    elif r == 2:
+        a.kids = [N('g', rand_pres(rng), [rand_leaf(rng, 0)])]
+    elif r == 3:
+        a.kids = [N('a', {'xlink:href': '#x'}, [rand_leaf(rng, 0)]), rand_leaf(rng, 0)]
+    else:
+        a.kids = [N('text', {'x': '10', 'y': '40', 'font-family': 'Noto Sans', 'font-size': '16'}, text='Link')]
+    if rng.below(3) == 0:
+        a.attrs['transform'] = rand_transform(rng)
+    return a
+
+
+def a_to_g(n):
+    """the expansion of `a`: the same element as a `g` (the link itself is dropped)"""
+    m = copy.deepcopy(n)
+    for x in m.walk():
+        if x.tag == 'a':
+            x.tag = 'g'
+            x.attrs.pop('xlink:href', None)
+    return m
+
+
 def rand_transform(rng):
     fs = []
     for _ in range(1 + rng.below(3)):
@@ -444,7 +480,7 @@ def gen_use_doc(rng, nth):
         n.attrs['id'] = 't%d' % (len(targets) + 1)
         targets.append(n)
         where.kids.append(n)
-    kinds = ['shape', 'g', 'svg', 'symbol', 'image', 'text', 'use']
+    kinds = ['shape', 'g', 'svg', 'symbol', 'image', 'text', 'use', 'a']
     want = [kinds[nth % len(kinds)]] + [rng.choice(kinds) for _ in range(rng.below(3))]
     body = N('g', rand_pres(rng, group=False))
     root.kids.append(body)
@@ -457,6 +493,8 @@ def gen_use_doc(rng, nth):
             while leaf.tag != kind:
                 leaf = rand_leaf(rng, 0)
             add_target(leaf, where)
+        elif kind == 'a':
+            add_target(rand_link(rng), where)
         elif kind == 'g':
             g = N('g', rand_pres(rng), [rand_leaf(rng, 0) for _ in range(1 + rng.below(3))])
             if rng.below(2):
@@ -466,7 +504,9 @@ def gen_use_doc(rng, nth):
                     k.attrs['id'] = 'k%d_%d' % (len(targets), i)
             add_target(g, where)
         elif kind in ('svg', 'symbol'):
-            a = rand_pres(rng, group=(kind == 'symbol'))
+            a = rand_pres(rng)
+            if kind == 'svg' and rng.below(4) == 0:
+                a['transform'] = rand_transform(rng)
             if kind == 'svg':
                 if rng.below(4) > 0:
                     a['x'] = fnum(dy(rng, 0, 40))
@@ -504,8 +544,7 @@ def gen_use_doc(rng, nth):
             u.attrs['y'] = fnum(dy(rng, -20, 60))
         if rng.below(3) == 0:
             u.attrs['transform'] = rand_transform(rng)
-        # percentage sizes on a use of a symbol are a known class (resolved twice): dedicated scenario
-        pct = t.tag == 'svg'
+        pct = t.tag in ('svg', 'symbol')
         if rng.below(2):
             u.attrs['width'] = rng.choice([fnum(dy(rng, 20, 150)), '50%' if pct else fnum(dy(rng, 20, 150))])
         if rng.below(2):
@@ -888,7 +927,7 @@ def run_k(ctx, binp, T, quick):
         x, y = dy(rng, -30, 60), dy(rng, -30, 60)
         uw = dy(rng, 10, 180) if rng.below(2) else None
         uh = dy(rng, 10, 180) if rng.below(2) else None
-        # symbol targets: sometimes a percentage (the model follows the code: resolved twice, known class)
+        # symbol targets: sometimes a percentage of the viewport
         pw = rng.choice([50.0, 25.0, 80.0]) if (kind == 'symbol' and rng.below(4) == 0) else None
         ph = rng.choice([50.0, 40.0]) if (kind == 'symbol' and rng.below(4) == 0) else None
         sw_, sh_ = dy(rng, 10, 180), dy(rng, 10, 180)          # the nested svg's own size
@@ -1118,7 +1157,7 @@ def run_k(ctx, binp, T, quick):
                 i = ridx[b]
                 ctx.violation("rect-radii: the corner radii of the converted rect differ from the model's rect_radii "
                               "(one-sided / negative / clamp rules)", dict(op='dump', doc=rcases[i][0], model_case=ritems[b]))
-    # ---------------------------------------------------------------- nested svg (the model follows the code: known class)
+    # ---------------------------------------------------------------- nested svg
     ncases = []
     for i in range(60 if quick else 400):
         x, y, w, h = dy(rng, 0, 40), dy(rng, 0, 40), dy(rng, 20, 120), dy(rng, 20, 120)
@@ -1181,31 +1220,28 @@ def run_k(ctx, binp, T, quick):
             for b in bad[:3]:
                 i = idx[b]
                 ctx.violation("nested-svg: accumulated opacity / transform of the content of a nested svg differ from the model "
-                              "(convert_nested_svg, which follows the code: the element's own style is applied twice)",
+                              "(convert_nested_svg: own style and transform once, viewport clip group, viewport transform)",
                               dict(op='dump', doc=ncases[i][0], model_expr=ncases[i][1]))
     return ok_all
 
 
 # =================================================================================================
 def known_scenarios(rng):
-    """nested svg element carrying group-forming attributes: they are applied twice"""
+    """regressions for the two former known classes (fixed by fb5447a and 72e1d38): must pass"""
     out = []
     attr = rng.choice(['opacity="0.5"', 'transform="translate(7 3)"', 'style="mix-blend-mode:multiply" opacity="0.5"'])
     svg = '<svg id="n" x="10" y="20" width="80" height="60" %s><rect width="30" height="30" fill="blue"/></svg>' % attr
     a = '<svg %s width="200" height="200">%s</svg>' % (NS, svg)
-    style = attr if not attr.startswith('transform') else ''
-    tsf = 'translate(7 3) ' if attr.startswith('transform') else ''
     b = ('<svg %s width="200" height="200"><defs><clipPath id="c"><rect x="10" y="20" width="80" height="60"/></clipPath></defs>'
-         '<g transform="%s" clip-path="url(#c)"><g %s transform="translate(10 20)"><rect width="30" height="30" fill="blue"/></g></g></svg>'
-         % (NS, tsf.strip(), style))
-    b = b.replace(' transform=""', '')
-    out.append(('nested-svg-group-attrs-twice', a, b, 'nested svg with %s vs its expansion' % attr))
+         '<g %s><g clip-path="url(#c)"><g transform="translate(10 20)"><rect width="30" height="30" fill="blue"/></g></g></g></svg>'
+         % (NS, attr))
+    out.append((None, a, b, 'regression fb5447a: nested svg with %s vs its expansion' % attr))
     pw = rng.choice([50, 25, 80])
     a = ('<svg %s width="200" height="200"><symbol id="s" viewBox="0 0 40 40"><rect width="40" height="40" fill="blue"/></symbol>'
          '<use xlink:href="#s" x="10" y="20" width="%d%%" height="100"/></svg>' % (NS, pw))
     b = ('<svg %s width="200" height="200"><symbol id="s" viewBox="0 0 40 40"><rect width="40" height="40" fill="blue"/></symbol>'
          '<use xlink:href="#s" x="10" y="20" width="%s" height="100"/></svg>' % (NS, fnum(pw * VIEW / 100.0)))
-    out.append(('use-symbol-percent-size', a, b, 'use of a symbol with width="%d%%" vs the same width in user units' % pw))
+    out.append((None, a, b, 'regression 72e1d38: use of a symbol with width="%d%%" vs the same width in user units' % pw))
     return out
 
 
@@ -1248,6 +1284,26 @@ def run_e2e(ctx, binp, T, n):
         kids = ''.join(k.ser() for k in [rand_leaf(rng, 0) for _ in range(1 + rng.below(3))])
         body = '<svg %s width="200" height="200"><defs><linearGradient id="lg"><stop offset="0" stop-color="red"/></linearGradient></defs><%s id="l"%s%s%s>%s</%s></svg>'
         add('a-vs-g', body % (NS, 'a', ' xlink:href="http://example.org/"', pr, tf, kids, 'a'), body % (NS, 'g', '', pr, tf, kids, 'g'))
+        # `a` in every role where a `g` can stand: use target (directly and through a use chain), switch child, container
+        root = N('svg', {'width': '200', 'height': '200'})
+        dfs = N('defs', {}, [N('linearGradient', {'id': 'lg'}, [N('stop', {'offset': '0', 'stop-color': 'red'})])])
+        root.kids.append(dfs)
+        role = i % 4
+        la = rand_link(rng)
+        la.attrs['id'] = 'la'
+        if role == 0:
+            (dfs if rng.below(2) else root).kids.append(la)
+            root.kids.append(N('use', dict(rand_pres(rng), **{'xlink:href': '#la', 'x': fnum(dy(rng, 0, 40)), 'y': fnum(dy(rng, 0, 40))})))
+        elif role == 1:
+            dfs.kids.append(la)
+            dfs.kids.append(N('use', {'xlink:href': '#la', 'id': 'u1', 'x': '5'}))
+            root.kids.append(N('use', {'xlink:href': '#u1', 'id': 'u2', 'y': fnum(dy(rng, 0, 30))}))
+        elif role == 2:
+            root.kids.append(N('switch', rand_pres(rng), [N('rect', {'width': '5', 'height': '5', 'requiredExtensions': 'x'}), la,
+                                                         rand_leaf(rng, 0)]))
+        else:
+            root.kids.append(N('g', rand_pres(rng), [la, N('a', {'xlink:href': '#y'}, [rand_link(rng)])]))
+        add('a-vs-g-' + ['use-target', 'use-chain', 'switch-child', 'nested'][role], root.ser(True), a_to_g(root).ser(True))
         # switch vs first passing child
         feats = T.get('features', [FEATURE_OK])
         sk, langs = gen_switch(rng, feats[:6])
@@ -1317,7 +1373,7 @@ def run_e2e(ctx, binp, T, n):
     ctx.cov['gzip_ratios'] = sorted(ratios)
     for _ in range(max(2, n // 20)):
         for cls, a, b, desc in known_scenarios(rng):
-            add(desc, a, b, cls=cls)
+            add('regression', a, b, cls=cls)
     items = []
     for kind, opts, a, b, cls in pairs:
         items.append("%s\t%s" % (opts, a))
@@ -1385,7 +1441,8 @@ def run(ctx):
     ]
     ctx.assumptions = ["trees are compared after dissolving pure-transform groups into accumulated transforms; ids of groups and "
                        "definitions are not compared (ids of copies are dropped by construction)",
-                       "known class: nested-svg-group-attrs-twice"]
+                       "no known class left: nested-svg-group-attrs-twice (fb5447a) and use-symbol-percent-size (72e1d38) were fixed; "
+                       "their witnesses are must-pass regression pairs"]
     broken = [b for b in ctx.translate() if b['name'] in MY_TIES or b['kind'] == 'translator']
     for b in broken:
         ctx.log("broken tie relevant to C10: %s" % b)
@@ -1427,10 +1484,10 @@ def run(ctx):
         "use-convert: use -> symbol / nested svg with random x, y, width, height, transform, viewBox (aspect 1:25..25:1), all 10 aligns "
         "x meet/slice; switch: 1-5 children with requiredExtensions / requiredFeatures / systemLanguage under 5 language settings, text "
         "nodes in between; transform-origin and rect-radii: random dyadic values incl. negative and oversize radii.  e2e-C10: use "
-        "documents (targets: shape, g, svg, symbol, image, text, use; chains to depth 4; with/without x, y, width, height, transform, "
+        "documents (targets: shape, g, a, svg, symbol, image, text, use; chains to depth 4; with/without x, y, width, height, transform, "
         "viewBox, preserveAspectRatio, overflow) vs full expansion; rect / circle / ellipse / line / polyline / polygon (percent units, "
         "one-sided / negative / oversize radii) vs paths; relative / shorthand / implicit path commands vs absolute; transform lists of "
-        "1-4 functions and transform-origin vs matrix(); a vs g; switch vs first passing child; gzip vs plain, incl. highly compressible input (deflate ratios 150:1 .. 1000:1, up to 4 MB of text); viewports whose viewBox size equals / is proportional to / is swapped with / differs minimally from the viewport size, non-zero origin.  Distinct by document text; "
+        "1-4 functions and transform-origin vs matrix(); a vs g (container, use target directly and through a chain, switch child, nested, empty, with text); switch vs first passing child; gzip vs plain, incl. highly compressible input (deflate ratios 150:1 .. 1000:1, up to 4 MB of text); viewports whose viewBox size equals / is proportional to / is swapped with / differs minimally from the viewport size, non-zero origin.  Distinct by document text; "
         "non-trivial = the tree has at least one leaf.")
 
 
